@@ -1,5 +1,6 @@
 PROP = {
     "id": "C01",
+    "tie2": ["Tie2Secs2"],
     "harness": "c01",
     "driver": "c01",
     "n_quick": 3000,
